@@ -21,7 +21,7 @@ VARIABLE l
 
 EstInv(cfg, sc, st) ==
   /\ NoCleartextLdap(cfg, st) /\ ReadyImpliesProtected(cfg, st) /\ InjectedNeverParsed(cfg, st)
-  /\ TimeoutBoundsAll(cfg, st) /\ FaultsFail(cfg, sc, st)
+  /\ TimeoutBoundsAll(cfg, st) /\ FaultsFail(cfg, sc, st) /\ EstablishedClean(st)
 
 RECURSIVE Run(_, _, _, _, _)
 Run(cfg, sc, S, evs, i) ==
